@@ -28,6 +28,17 @@ RayCases == { RayCase(c, s, n) : c \in Cyls, s \in StartsR, n \in DirsR }
 ASSUME \A cls \in RayClasses : \E x \in RayCases : x.cls = cls /\ x.exact /\ ~x.grazing
 ASSUME \A x \in RayCases : x.cls \in ZeroClasses /\ x.exact => x.len = RZero
 
+(* "in any length unit": re-expressing cylinder and ray in a unit f times finer keeps class, exactness  *)
+(* and grazing and multiplies the path length by f; membership of the probe points is unchanged        *)
+UnitFactors == {10}
+ASSUME \A x \in RayCases, f \in UnitFactors :
+         LET S == RaySummary(ScaleCyl(f, x.c), ScaleRay(f, [s |-> x.s, n |-> x.n]))
+         IN /\ (S.cls = x.cls \/ "undecided" \in {S.cls, x.cls})    \* integer root bounds are finer in the finer unit
+            /\ S.exact = x.exact /\ S.grazing = x.grazing
+            /\ (x.exact => S.len = RScale(f, x.len))
+ASSUME \A c \in Cyls, p \in MC_Points, f \in UnitFactors \cup {3, 1000} :
+         Inside(ScaleCyl(f, c), ScaleVec(f, p)) = Inside(c, p)
+
 Motions == { <<q, tau>> : q \in MC_CubeQuats \cup MC_SkewQuats \cup {<<0,1,0,0>>, <<1,2,2,0>>}, tau \in MC_Shifts }
 CylCases == { [c |-> MkCyl(q, b, r, h), q |-> g[1], tau |-> g[2],
                gc |-> MoveCyl(g[1], g[2], MkCyl(q, b, r, h)),
